@@ -151,7 +151,10 @@ def run_job(cfg, prop_fn, tier, seed=0, depth=None):
     u = None
     unwinding = 'not established'
     for attempt in range(3):
-        u = unroll(prod, K, z3.And(spec['init'](prod), z3.Not(prod.pre['oob'])), seed=seed)
+        # per-query solver budget: 15 min in the quick tier; 45 min in the thorough tier (measured under full load: the
+        # unwinding query of the slowest 3-task graph, three soft edges, needs a little more than 15 min)
+        u = unroll(prod, K, z3.And(spec['init'](prod), z3.Not(prod.pre['oob'])), seed=seed,
+                   timeout_ms=900000 if tier == 'quick' else 2700000)
         if (tier == 'quick' or cfg.w > 1) and not spec.get('needs_unwinding'):
             # quick tier: bounded claim (every run, first K steps); K is sized from the code structure and
             # its completeness (no thread enabled at depth K) is established in the thorough tier for one worker.
